@@ -170,8 +170,13 @@ def density_respellings(tok):
     return [o for o in dict.fromkeys(out) if o != tok]
 
 
+QUICK = {'on': False}      # set by scenarios(): the quick tier takes two number sites per card and 8 spellings each
+
+
 def cap(sites):
-    """first, middle and last of a list of sites"""
+    """first, middle and last of a list of sites (quick tier: first and last)"""
+    if QUICK['on'] and len(sites) > 2:
+        return [sites[0], sites[-1]]
     if len(sites) <= 3:
         return sites
     return [sites[0], sites[len(sites) // 2], sites[-1]]
@@ -368,6 +373,12 @@ def rewrites(text):
                     put('split5:%s@%d' % (tag, b), lines[:s] + [L[:b], '     ' + L[b + 1:]] + lines[s + 1:])
                     put('splittab:%s@%d' % (tag, b), lines[:s] + [L[:b], '\t' + L[b + 1:]] + lines[s + 1:])
                     put('splitamp:%s@%d' % (tag, b), lines[:s] + [L[:b] + ' &', L[b + 1:]] + lines[s + 1:])
+            # three lines mixing both continuation styles: the indented second line itself ends with &
+            if single and '$' not in L and '&' not in L and len(blanks) >= 4:
+                b1, b2 = blanks[len(blanks) // 3], blanks[(2 * len(blanks)) // 3]
+                if b1 < b2:
+                    put('mixed3:' + tag, lines[:s] + [L[:b1], '      ' + L[b1 + 1:b2] + ' &', L[b2 + 1:]] + lines[s + 1:])
+                    put('mixed3:%s-amp-first' % tag, lines[:s] + [L[:b1] + ' &', L[b1 + 1:b2], '      ' + L[b2 + 1:]] + lines[s + 1:])
             # the material number of a cell card is an integer field: leading zeros and a sign of zero are allowed
             if kind == 'c' and single and '$' not in L:
                 mm = re.match(r'^(\s*\d+\s+)(\d+)(\s.*)$', L)
@@ -382,7 +393,10 @@ def rewrites(text):
                     m = (re.match(r'^(imp:[a-zA-Z,]+=|[rR][hH][oO]=)(' + NUM + r')()$', toks[k])
                          or re.match(r'^(.*\()?(' + NUM + r')(\)*)$', toks[k]))
                     pre, core, post = (m.group(1) or ''), m.group(2), m.group(3)
-                    for alt in respellings(core):
+                    alts = respellings(core)
+                    if QUICK['on'] and len(alts) > 8:
+                        alts = alts[::max(1, len(alts) // 8)][:8]
+                    for alt in alts:
                         nl = ' '.join(toks[:k] + [pre + alt + post] + toks[k + 1:])
                         form = ('numD' if re.search(r'[dD]', alt) else
                                 'numF' if re.search(r'\d[-+]\d', alt) else 'num')
@@ -412,7 +426,7 @@ _SEEN = {}
 _MAIN = os.getpid()
 
 
-STRUCTURAL = ('matnum', 'message-block', 'upper', 'lead1', 'lead4', 'dollar', 'ccomment', 'ccomment-inside', 'blanks', 'tab',
+STRUCTURAL = ('mixed3', 'matnum', 'message-block', 'upper', 'lead1', 'lead4', 'dollar', 'ccomment', 'ccomment-inside', 'blanks', 'tab',
               'split5', 'splittab', 'splitamp', 'shorthand')
 
 
@@ -448,6 +462,8 @@ def builder(base, depth, kinds=None, numpairs=True):
 
 def scenarios(tier):
     q = tier == 'quick'
+    QUICK['on'] = q
+    rewrites.cache_clear()
     out = [Scn('deck' + b, builder(b, 2, numpairs=not q), 2, 2,
                'rewrite sequences of length <= 2, all rewrite kinds' + (' (pairs of two number respellings: thorough tier)' if q else ''))
            for b in 'ABCD']
